@@ -2,35 +2,35 @@
 //! and carry valid fresh cookies. Claimed under the ideal-AEAD assumption (DESIGN 2.6): the
 //! session ciphers are `ModelCipher`, `KeySet::{decode_cookie,encode_cookie}` are replaced by
 //! `model_decode_cookie` / `model_encode_cookie` (crate::common).
+//!
+//! Per run constant (see c18.rs for why): the request layout (`NtsLayout`), the policy, and the
+//! two authentication outcomes "cookie decodes" / "request is authentic". Symbolic: all request
+//! contents that the layout does not fix, reception time, clock, synchronisation state.
 use crate::common::*;
 use crate::stubs;
 use ntp_proto::*;
 use std::sync::Arc;
 
-/// Everything symbolic of one NTS exchange besides the request bytes, drawn up front.
-pub struct NtsCase {
-    pub env: Env,
-    /// the cookie is one this server issued under a key it still holds
-    pub cookie_valid: bool,
-    /// the client really produced (associated data, nonce, ciphertext) under the c2s key
-    pub authentic: bool,
+/// Authentication outcome of a run.
+#[derive(Clone, Copy, PartialEq, Eq)]
+pub enum Auth {
+    /// cookie decodes under the server's keys and the client's tag verifies
+    Ok,
+    /// cookie was not issued by this server (or its key was rotated out)
+    BadCookie,
+    /// cookie fine, but (associated data, nonce, ciphertext) is not what the client sent
+    BadTag,
 }
 
-#[cfg(kani)]
-impl NtsCase {
-    pub fn any() -> NtsCase {
-        NtsCase { env: Env::any(), cookie_valid: kani::any(), authentic: kani::any() }
-    }
-}
-
-pub fn reset_ghosts(c: &NtsCase, fresh: usize) {
+pub fn reset_ghosts(auth: Auth, fresh: usize) {
     unsafe {
-        REQ_AUTHENTIC = c.authentic;
-        COOKIE_VALID = c.cookie_valid;
+        REQ_AUTHENTIC = auth == Auth::Ok;
+        COOKIE_VALID = auth != Auth::BadCookie;
         FRESH_COOKIE_LEN = fresh;
         DEC_CALLS = 0;
         DEC_OK = 0;
         DEC_WRONG_KEY = 0;
+        DEC_BAD_EXTENTS = 0;
         ENC_CALLS = 0;
         ENC_KEY = 0;
         COOKIE_DECODES = 0;
@@ -40,16 +40,16 @@ pub fn reset_ghosts(c: &NtsCase, fresh: usize) {
     }
 }
 
-/// Walk `n_uid` echoed unique-identifier fields starting at `pos`; returns the offset after them.
+/// Walk echoed unique-identifier fields starting at `pos`; returns the offset after them.
 /// `uids` = (offset of payload in request, payload length) in request order.
-fn walk_uid_echoes(resp: &[u8], n: usize, mut pos: usize, req: &[u8], uids: &[(usize, usize)]) -> usize {
+pub fn walk_uid_echoes(resp: &[u8], n: usize, mut pos: usize, req: &[u8], uids: &[(usize, usize)]) -> usize {
     let mut k = 0;
     while k < uids.len() {
         let (off, plen) = uids[k];
         assert!(pos + 4 <= n, "answer holds the echoed unique identifier");
         assert!(rd16(resp, pos) == EF_UID, "answer field is a unique identifier");
         let l = rd16(resp, pos + 2) as usize;
-        assert!(l >= 4 + plen && l % 4 == 0 && pos + l <= n, "echoed field is well-formed");
+        assert!(l >= 4 + plen && l % 4 == 0 && l <= 64 && pos + l <= n, "echoed field is well-formed");
         assert!(same(resp, pos + 4, req, off, plen), "unique identifier echoed unchanged");
         assert!(all_zero(resp, pos + 4 + plen, l - 4 - plen), "padding of the echoed field is zero");
         pos += l;
@@ -58,26 +58,33 @@ fn walk_uid_echoes(resp: &[u8], n: usize, mut pos: usize, req: &[u8], uids: &[(u
     pos
 }
 
-/// One NTPv4 NTS exchange for the given (concrete) layout; all C19 assertions.
+/// What one exchange produced (for harness-level cover goals).
+#[derive(Clone, Copy, PartialEq, Eq)]
+pub struct NtsOutcome {
+    pub kind: Option<Kind>,
+    pub cookies: usize,
+    pub len: usize,
+}
+
+/// One NTPv4 NTS exchange for the given (constant) layout; all C19 assertions.
 /// `fresh` = length of the cookies the key set currently issues.
-pub fn nts_v4_exchange(lay: NtsLayout, fresh: usize, c: &NtsCase, msg: &mut [u8], buf: &mut [u8]) {
+pub fn nts_v4_exchange(lay: NtsLayout, fresh: usize, env: &Env, auth: Auth, msg: &mut [u8], buf: &mut [u8]) -> NtsOutcome {
     build_nts_request(msg, &lay, 4);
-    reset_ghosts(c, fresh);
+    reset_ghosts(auth, fresh);
     let keyset = empty_keyset();
     let keyset_ptr = Arc::as_ptr(&keyset);
-    let mut server = c.env.server(v5::BloomFilter::new(), keyset);
+    let mut server = env.server(v5::BloomFilter::new(), keyset);
     let mut stats = RecStats::default();
     let buf_ptr = buf.as_ptr();
-    let out = handle_once(&mut server, &c.env, msg, buf, &mut stats);
+    let out = handle_once(&mut server, env, msg, buf, &mut stats);
     std::mem::forget(server);
 
-    let env = &c.env;
-    let auth_ok = c.cookie_valid && c.authentic;
-    let is_client = true; // template: client mode
-    let (dec_calls, dec_ok, dec_wrong, enc_calls, enc_key, enc_aad_ptr, enc_aad_len, cookie_encodes, bad_keys, enc_keyset, foreign) = unsafe {
-        (DEC_CALLS, DEC_OK, DEC_WRONG_KEY, ENC_CALLS, ENC_KEY, ENC_AAD_PTR, ENC_AAD_LEN, COOKIE_ENCODES, COOKIE_ENCODE_BAD_KEYS, COOKIE_ENCODE_KEYSET, COOKIE_DECODE_FOREIGN)
+    let auth_ok = auth == Auth::Ok;
+    let (dec_ok, dec_wrong, dec_bad_extents, enc_calls, enc_key, enc_aad_ptr, enc_aad_len, cookie_encodes, bad_keys, enc_keyset, foreign) = unsafe {
+        (DEC_OK, DEC_WRONG_KEY, DEC_BAD_EXTENTS, ENC_CALLS, ENC_KEY, ENC_AAD_PTR, ENC_AAD_LEN, COOKIE_ENCODES, COOKIE_ENCODE_BAD_KEYS, COOKIE_ENCODE_KEYSET, COOKIE_DECODE_FOREIGN)
     };
     assert!(dec_wrong == 0, "the request is only ever decrypted with the cookie's c2s key");
+    assert!(dec_bad_extents == 0, "the server verifies exactly the extents the client authenticated (whole prefix as associated data)");
     assert!(foreign == 0, "only the request's cookie field is decoded");
     assert!(dec_ok as usize <= auth_ok as usize, "model sanity: decrypt succeeds only for an authentic request with a valid cookie");
 
@@ -86,10 +93,10 @@ pub fn nts_v4_exchange(lay: NtsLayout, fresh: usize, c: &NtsCase, msg: &mut [u8]
 
     let n = match out {
         None => {
-            // C19 does not require an answer; but an authentic client request from an allowed
-            // client must not be dropped (otherwise every assertion below would be vacuous).
-            assert!(!(auth_ok && is_client), "authentic NTS client request is answered");
-            return;
+            // C19 does not require an answer; but an authentic client request must not be dropped
+            // (otherwise every assertion below would be vacuous).
+            assert!(!auth_ok, "authentic NTS client request is answered");
+            return NtsOutcome { kind: None, cookies: 0, len: 0 };
         }
         Some(n) => n,
     };
@@ -109,14 +116,10 @@ pub fn nts_v4_exchange(lay: NtsLayout, fresh: usize, c: &NtsCase, msg: &mut [u8]
         };
         assert!(pos == n, "NAK/DENY carries nothing but unique-identifier echoes (no cookie, nothing from the undecryptable part)");
         assert!(stats.nts || env.deny_client, "statistics: counted as NTS");
-        kani::cover!(expect == Kind::Nak && !c.cookie_valid, "NAK: cookie does not decode");
-        kani::cover!(expect == Kind::Nak && c.cookie_valid && !c.authentic, "NAK: cookie fine, authentication tag wrong");
-        kani::cover!(expect == Kind::Deny, "DENY for an unauthenticated request of a denied client");
-        return;
+        return NtsOutcome { kind: Some(expect), cookies: 0, len: n };
     }
 
     // ---- authenticated request
-    assert!(is_client, "only client-mode requests get an authenticated answer");
     let expect = if env.deny_client { Kind::Deny } else { Kind::Time };
     check_header_v34(resp, msg, expect, env);
     // authenticated part: the echo of the authenticated unique identifier, nothing else
@@ -127,49 +130,46 @@ pub fn nts_v4_exchange(lay: NtsLayout, fresh: usize, c: &NtsCase, msg: &mut [u8]
     let nonce_len = rd16(resp, pos + 4) as usize;
     let ct_len = rd16(resp, pos + 6) as usize;
     assert!(pos + total == n, "authenticator is the last field: everything before it is associated data");
-    assert!(nonce_len == NONCE_LEN && ct_len >= TAG_LEN && total == 8 + nonce_len + ((ct_len + 3) & !3), "authenticator framing");
+    assert!(nonce_len == NONCE_LEN && ct_len >= TAG_LEN && ct_len <= 1024 && total == 8 + nonce_len + ((ct_len + 3) & !3), "authenticator framing");
     // the authenticator was produced by exactly one encrypt call, under the cookie's s2c key, over
     // exactly the answer's prefix, and what it authenticated is what is being sent
     assert!(enc_calls == 1, "exactly one AEAD encryption per answer");
     assert!(enc_key == S2C_ID, "C19: answer is authenticated with the cookie's server-to-client key");
     assert!(enc_aad_ptr == buf_ptr && enc_aad_len == pos, "C19: associated data = the answer up to the authenticator field");
-    let mut i = 0;
-    let mut same_prefix = true;
-    while i < pos && i < 128 {
-        same_prefix &= unsafe { ENC_AAD_COPY[i] } == resp[i];
-        i += 1;
+    assert!(pos <= 128, "prefix fits the ghost copy");
+    // loop-free comparison of the first `pos` (<= 128, multiple of 4) bytes
+    let copy: &[u8; 128] = unsafe { &ENC_AAD_COPY };
+    let mut same_prefix = pos % 4 == 0;
+    macro_rules! cmp_words { ($($i:expr),*) => { $( if 8 * $i + 8 <= pos { same_prefix &= rd64(copy, 8 * $i) == rd64(resp, 8 * $i); } )* } }
+    cmp_words!(0, 1, 2, 3, 4, 5, 6, 7, 8, 9, 10, 11, 12, 13, 14, 15);
+    if pos % 8 == 4 {
+        same_prefix &= rd32(copy, pos - 4) == rd32(resp, pos - 4);
     }
-    assert!(pos <= 128 && same_prefix, "the authenticated prefix is the prefix that is sent");
+    assert!(same_prefix, "the authenticated prefix is the prefix that is sent");
     let nonce_at = pos + 8;
     let ct_at = nonce_at + nonce_len;
-    let mut i = 0;
-    let mut model_out = true;
-    while i < NONCE_LEN {
-        model_out &= resp[nonce_at + i] == ENC_NONCE_BYTE;
-        i += 1;
-    }
-    let mut i = 0;
-    while i < TAG_LEN {
-        model_out &= resp[ct_at + ct_len - TAG_LEN + i] == S2C_ID;
-        i += 1;
-    }
-    assert!(model_out, "nonce and tag in the answer are the ones the s2c encryption produced");
+    let tag_at = ct_at + ct_len - TAG_LEN;
+    let nonce_word = u64::from_be_bytes([ENC_NONCE_BYTE; 8]);
+    let tag_word = u64::from_be_bytes([S2C_ID; 8]);
+    assert!(rd64(resp, nonce_at) == nonce_word && rd64(resp, nonce_at + 8) == nonce_word, "nonce in the answer is the one the s2c encryption produced");
+    assert!(rd64(resp, tag_at) == tag_word && rd64(resp, tag_at + 8) == tag_word, "tag in the answer is the one the s2c encryption produced");
 
     // plaintext: fresh cookies only
-    let pt_end = ct_at + ct_len - TAG_LEN;
+    let pt_end = tag_at;
+    let clen = 4 + ((fresh + 3) & !3);
     let mut p = ct_at;
     let mut k: usize = 0;
     let mut last_seq: u8 = 0;
     while p < pt_end && k < 9 {
         assert!(p + 4 <= pt_end && rd16(resp, p) == EF_COOKIE, "encrypted part of the answer holds cookies only");
         let l = rd16(resp, p + 2) as usize;
-        assert!(l == 4 + ((fresh + 3) & !3) && p + l <= pt_end, "cookie field holds exactly one cookie of the issued length");
+        assert!(l == clen && p + l <= pt_end, "cookie field holds exactly one cookie of the issued length");
         assert!(resp[p + 4] == 0xC0 && resp[p + 6] == S2C_ID && resp[p + 7] == C2S_ID,
             "C19: cookie was issued by encode_cookie for the request's session keys");
         assert!(resp[p + 5] > last_seq, "every cookie comes from its own encode_cookie call (fresh, never repeated)");
         last_seq = resp[p + 5];
-        assert!(all_zero(resp, p + 8, l - 8), "rest of the model cookie and padding");
-        p += l;
+        assert!(all_zero(resp, p + 8, clen - 8), "rest of the model cookie and padding");
+        p += clen;
         k += 1;
     }
     assert!(p == pt_end, "cookies cover the plaintext exactly");
@@ -184,25 +184,45 @@ pub fn nts_v4_exchange(lay: NtsLayout, fresh: usize, c: &NtsCase, msg: &mut [u8]
     assert!(bad_keys == 0, "C19: cookies are encoded for the same session keys as the request's cookie");
     assert!(cookie_encodes == 0 || enc_keyset == keyset_ptr, "C19: cookies are encoded under the server's current key set");
     assert!(stats.nts, "statistics: counted as NTS");
-    kani::cover!(expect == Kind::Time && k == holders && k > 0, "time answer with the maximum number of fresh cookies");
-    kani::cover!(expect == Kind::Time && k == 0, "time answer without cookies");
-    kani::cover!(expect == Kind::Deny, "authenticated DENY");
+    NtsOutcome { kind: Some(expect), cookies: k, len: n }
 }
 
+/// harness body: one layout, one policy, one authentication outcome
 macro_rules! c19_v4 {
-    ($name:ident, $unwind:expr, $lay:expr, $fresh:expr) => {
+    ($name:ident, $unwind:expr, $lay:expr, $fresh:expr, $policy:expr, $auth:expr, |$o:ident| $covers:block) => {
         srv_harness! {
             #[kani::unwind($unwind)]
             fn $name() {
                 const LAY: NtsLayout = $lay;
-                let c = NtsCase::any();
-                let mut msg: [u8; LAY.len()] = kani::any();
-                let mut buf = [0u8; 1024];
-                nts_v4_exchange(LAY, $fresh, &c, &mut msg, &mut buf);
+                let env = Env::any().with($policy);
+                let mut backing: [u8; LAY.len() + SLACK] = kani::any();
+                let mut buf_backing = [0u8; BUF + SLACK];
+                let $o = nts_v4_exchange(LAY, $fresh, &env, $auth, &mut backing[..LAY.len()], &mut buf_backing[..BUF]);
+                $covers
             }
         }
     };
 }
 
-// quick: one cookie, no placeholder
-c19_v4!(c19_nts_p0, 110, NtsLayout { uid: 32, cookie: 104, placeholders: 0, placeholder: 104, nonce: 16, inner: 0, trailing: 0 }, 104);
+/// model cookie length used by the small templates (the code under test only ever compares cookie
+/// lengths with request field lengths; the real value is 104 for AES-SIV-CMAC-256 session keys)
+pub const C: usize = 8;
+/// smallest layout: uid(16) | cookie(C) | authenticator; 120 bytes
+pub const P0: NtsLayout = NtsLayout { uid: 16, cookie: C, placeholders: 0, placeholder: C, nonce: 16, inner: 0, trailing: 0 };
+
+c19_v4!(c19_nts_time, 6, P0, C, Policy::Serve, Auth::Ok, |o| {
+    kani::cover!(o.kind == Some(Kind::Time) && o.cookies == 1, "authenticated time answer with one fresh cookie");
+    kani::cover!(o.len == P0.len(), "answer exactly as long as the request");
+});
+c19_v4!(c19_nts_nak_cookie, 6, P0, C, Policy::Serve, Auth::BadCookie, |o| {
+    kani::cover!(o.kind == Some(Kind::Nak), "NAK: cookie does not decode");
+});
+c19_v4!(c19_nts_nak_tag, 6, P0, C, Policy::Serve, Auth::BadTag, |o| {
+    kani::cover!(o.kind == Some(Kind::Nak), "NAK: cookie fine, authentication fails");
+});
+c19_v4!(c19_nts_deny, 6, P0, C, Policy::DenyAddress, Auth::Ok, |o| {
+    kani::cover!(o.kind == Some(Kind::Deny) && o.cookies == 0, "authenticated DENY without cookies");
+});
+c19_v4!(c19_nts_deny_unauth, 6, P0, C, Policy::DenyAddress, Auth::BadTag, |o| {
+    kani::cover!(o.kind == Some(Kind::Deny), "plain DENY for an unauthenticated request of a denied client");
+});
